@@ -227,9 +227,9 @@ class WordHarness(Harness):
         exp = z3.Or(*[z3.And(a == i, z3.BoolVal(FAMILY[n] == family_of(col))) for i, n in enumerate(COLORS8)])
         ex.prove(exp, "C17:attribute-color", dict(det, name=code.name))
         ex.prove(z3.If(s2 % 2 == 0, z3.BoolVal(alpha == 255), z3.BoolVal(0 < alpha < 255)), "C17:attribute-opacity", dict(det, name=code.name))
-        ex.prove(code.is_background(), "C17:attribute-kind", dict(det, name=code.name))
+        ex.prove(code.is_background() and code.get_text_decoration() is None, "C17:attribute-kind", dict(det, name=code.name))
       else:
-        exp = z3.Or(z3.And(s2 == 0x2D, z3.BoolVal(code.is_background() and alpha == 0)),
+        exp = z3.Or(z3.And(s2 == 0x2D, z3.BoolVal(code.is_background() and alpha == 0 and code.get_text_decoration() is None)),
                     z3.And(s2 == 0x2E, z3.BoolVal((not code.is_background()) and family_of(col) == (0, 0, 0) and code.get_text_decoration() is None)),
                     z3.And(s2 == 0x2F, z3.BoolVal((not code.is_background()) and family_of(col) == (0, 0, 0) and
                                                   code.get_text_decoration() is not None and code.get_text_decoration().underline is True)))
